@@ -117,7 +117,7 @@ where
 }
 
 pub fn run(report: &mut Report) {
-    let rigs = [Rig::new(Options::default), Rig::new(|| Options { request_chunk: 1, response_chunk: 1 })];
+    let rigs = [Rig::new(Options::default), Rig::new(|| Options { request_chunk: 1, response_chunk: 1 }), Rig::new(|| Options { request_chunk: 5 | crate::loopback::WITH_EMPTY_CHUNKS, response_chunk: 5 | crate::loopback::WITH_EMPTY_CHUNKS })];
     let payloads: Vec<Payload> = [
         r#"{"name":"","count":0,"ratio":0.0}"#,
         r#"{"name":"n\"\\\né","count":-2147483648,"tags":["a","","%2F"],"ratio":"NaN","extra":{"k":[1,null,{"type":"x"}]},"blob":"AP8=","byKey":{"a b":"RED","":"OTHER_COLOR"}}"#,
